@@ -86,7 +86,9 @@ def _collapse_preconditions(
             ).format(func.__qualname__)
         )
 
-    return base_preconditions + preconditions
+    # The groups of the bases are copied: the preconditions added later to this function (see
+    # ``add_precondition_to_checker``) are appended to the first group in-place and must not change the bases.
+    return [group[:] for group in base_preconditions] + preconditions
 
 
 def _collapse_snapshots(
